@@ -4,7 +4,7 @@
 # than is counted here).  A measurement used to find generator gaps, not a check.  Output: work/cov/report.txt
 mkdir -p /verif/work/cov; cd /verif
 for id in $(seq -w 1 20); do echo "C$id"; done | xargs -P ${COV_JOBS:-8} -I{} bash -c \
-  "/venv/bin/python -m coverage run --branch --source=${VERIF_REPO:-/repo}/mammoth --data-file=work/cov/{}.cov ./check {} --tier quick --no-prove > work/cov/{}.out 2>&1; echo {} \$?" | tr '\n' ' '
+  "VERIF_CHECK_CHILD=1 /venv/bin/python -m coverage run --branch --source=${VERIF_REPO:-/repo}/mammoth --data-file=work/cov/{}.cov ./check {} --tier quick --no-prove > work/cov/{}.out 2>&1; echo {} \$?" | tr '\n' ' '
 echo
 cd work/cov && /venv/bin/python -m coverage combine --keep --data-file=all.cov C*.cov >/dev/null \
  && /venv/bin/python -m coverage report --data-file=all.cov -m --skip-covered --omit='*/dingbats.py' > report.txt; tail -n 40 report.txt
